@@ -86,6 +86,30 @@ def run_compiled(ctx, n):
     progcases.run_cases(ctx, cases, want_stages=False)
 
 
+def run_compiled_at_positions(ctx, n):
+    """compiled single-return experiments with the position substituted: no salt and uid = h make the key str(h)"""
+    from pyab_experiment.experiment_evaluator import ExperimentEvaluator
+    rng = ctx.rng
+    vectors = [choicelib.weight_vector(rng) for _ in range(n)]
+    vectors[:0] = [["1000000", "1", "1000000"], ["1000", "0.001"], ["0", "1"], ["123456.7", "0.5", "7654321"], ["0.0000001", "1000000"]]
+    with choicelib.SubstitutedPosition():
+        for ws_text in vectors:
+            groups = ", ".join('"g%d" weighted %s' % (i, w) for i, w in enumerate(ws_text))
+            try:
+                ev, _ = common.quiet(lambda: ExperimentEvaluator("def e { splitters: uid return %s }" % groups))
+            except Exception as ex:  # noqa
+                ctx.violation(f"single-return experiment with weights {ws_text[:6]} does not compile: {common.classify_exc(ex)}", {"weights": ws_text})
+                continue
+            for h in choicelib.boundary_positions(ws_text, rng, 2):
+                out = common.outcome_of(lambda: ev(uid=h))
+                exact, allowed = gen.spec_indices(ws_text, h)
+                ctx.case(("compiled", tuple(ws_text), h), True)
+                ctx.count("compiled-at-position")
+                if "g" not in out or out["g"].get("s") not in {"g%d" % i for i in allowed}:
+                    ctx.violation(f"compiled experiment with weights {ws_text[:8]} at position {h}/2^32 returns {json.dumps(out)}, the interval "
+                                  f"rule selects g{exact}", {"weights": ws_text, "h": h, "impl": out, "spec_exact": exact})
+
+
 def run(ctx):
     n = N[ctx.tier]
     if ctx.obligation_breaks or ctx.tie_breaks:
@@ -98,7 +122,9 @@ def run(ctx):
                            "(validated bit-for-bit by the cum/choice correspondence, not proved); integer weights with T < 2^21 are unconditional")
     run_vectors(ctx, n)
     run_compiled(ctx, max(20, n // 4))
+    run_compiled_at_positions(ctx, max(30, n // 3))
 
 
 def search(ctx):
     run_vectors(ctx, 1500, with_model=False)
+    run_compiled_at_positions(ctx, 500)
